@@ -99,6 +99,7 @@ func NewIfdReader(l zerolog.Logger) ifdReader {
 func (ir *ifdReader) ResetReader(r io.Reader) {
 	ir.buffer.clear()
 	ir.reader = r
+	ir.atEOF, ir.tail = false, 0
 }
 
 // SetCustomTagParser sets a custom tag parser
@@ -123,6 +124,10 @@ type ifdReader struct {
 	tiffHeaderOffset uint32
 	firstIfdOffset   uint32
 	exifLength       uint32
+	// atEOF is set once a read has hit the end of the stream; tail is the number of bytes that were still
+	// buffered at that point. Later reads are answered from these without asking the reader again.
+	atEOF bool
+	tail  int
 }
 
 func (ir *ifdReader) readIfdHeader(ifd ifds.Ifd) (err error) {
@@ -286,7 +291,15 @@ func (ir *ifdReader) fastRead(n int) (buf []byte, err error) {
 		return nil, imagetype.ErrDataLength
 	}
 	if br, ok := ir.reader.(BufferedReader); ok {
+		if ir.atEOF && n > ir.tail {
+			// the stream has ended: what is left is handed out, as Peek would, without another read
+			buf, _ = br.Peek(ir.tail)
+			return buf, io.EOF
+		}
 		if buf, err = br.Peek(n); err != nil {
+			if err == io.EOF {
+				ir.atEOF, ir.tail = true, len(buf)
+			}
 			if ir.logLevelError() {
 				ir.logError(err).Msg("Peek error")
 			}
@@ -299,13 +312,22 @@ func (ir *ifdReader) fastRead(n int) (buf []byte, err error) {
 			return
 		}
 		ir.po += uint32(n)
+		if ir.atEOF {
+			ir.tail -= n
+		}
 		return
 	}
 	if n > len(ir.buffer.buf) {
 		return nil, imagetype.ErrDataLength
 	}
+	if ir.atEOF && n > 0 {
+		return nil, io.EOF
+	}
 	n, err = io.ReadFull(ir.reader, ir.buffer.buf[:n])
 	ir.po += uint32(n)
+	if err == io.EOF || err == io.ErrUnexpectedEOF {
+		ir.atEOF, ir.tail = true, 0
+	}
 	if err != nil {
 		if ir.logLevelError() {
 			ir.logError(err).Msg("Read error")
